@@ -843,7 +843,12 @@ pub fn post_pause_walk(w: &mut World, when: &str, info: GcInfo) -> BTreeMap<u64,
                 if e.settled_in_pause == cur {
                     continue;
                 }
-                if let Some(kaddr) = wk.found.get(&e.key).cloned() {
+                // (an immortal key never dies: the binding traces the value without asking, and
+                // the model keeps the value alive in the same way, reachable key or not)
+                let key_alive = wk.found.get(&e.key).cloned().or_else(|| {
+                    w.objs.get(&e.key).filter(|o| o.sem == SEM_IMMORTAL).map(|o| o.addr)
+                });
+                if let Some(kaddr) = key_alive {
                     // key alive => value alive at the address the tracer reported
                     if e.value_traced_in_pause != cur {
                         violation(
